@@ -968,7 +968,14 @@ class Fxp():
                 val_dtype = np.int64 if self.signed else np.uint64
 
             # rounding and overflowing
-            new_val = self._round(val * conv_factor , method=self.config.rounding)
+            if not raw and self.n_frac < 0 and val.dtype.kind in 'iuO' and val.size > 0 \
+                    and (val.dtype != object or all(type(v) is int for v in val.ravel().tolist())) \
+                    and max(abs(int(np.max(val))), abs(int(np.min(val)))).bit_length() > 53:
+                # integers of more than 53 bits into a format with a negative fraction length: the exact quotients are rounded
+                # (the float factor 2**n_frac would round the integer to a double first: the bits that decide floor / ceil / the residue are lost)
+                new_val = self._round(utils.scale_raw(val, self.n_frac), method=self.config.rounding)
+            else:
+                new_val = self._round(val * conv_factor , method=self.config.rounding)
             new_val = self._overflow_action(new_val, val_min, val_max)
 
             # convert to array of val_dtype
